@@ -418,34 +418,6 @@ end GT.CoxAut
 namespace GT.Cox
 open Matrix
 
-/-- label ∞ (`C_ij·C_ji = 4`): `P^k e_j = k·C_ij·e_i + (1-2k)·e_j`, so `P` has infinite order -/
-theorem P_pow_ej {R : Type*} [CommRing R] {n : ℕ} (C : Matrix (Fin n) (Fin n) R) (i j : Fin n)
-    (hi : C i i = 2) (hj : C j j = 2) (hc : C i j * C j i = 4) (k : ℕ) :
-    ((refl C i * refl C j) ^ k) *ᵥ Pi.single j 1
-      = ((k : R) * C i j) • Pi.single i 1 + (1 - 2 * (k : R)) • Pi.single j 1 := by
-  induction k with
-  | zero => rw [pow_zero, one_mulVec]; simp
-  | succ k ih =>
-    rw [pow_succ', ← mulVec_mulVec, ih, mulVec_add, mulVec_smul, mulVec_smul, P_ei C i j hi, P_ej C i j hj]
-    push_cast
-    have e1 : (k : R) * C i j * (C i j * C j i - 1) + (1 - 2 * (k : R)) * C i j = ((k : R) + 1) * C i j := by
-      linear_combination ((k : R) * C i j) * hc
-    have e2 : -((k : R) * C i j * C j i) - (1 - 2 * (k : R)) = 1 - 2 * ((k : R) + 1) := by
-      linear_combination (-(k : R)) * hc
-    rw [← e1, ← e2]
-    module
-
-theorem order_infinite {n : ℕ} (C : Matrix (Fin n) (Fin n) ℝ) (i j : Fin n) (hij : i ≠ j)
-    (hi : C i i = 2) (hj : C j j = 2) (hc : C i j * C j i = 4) (k : ℕ) (hk : 0 < k) :
-    (refl C i * refl C j) ^ k ≠ 1 := by
-  intro hP
-  have := congrFun (P_pow_ej C i j hi hj hc k) j
-  rw [hP, one_mulVec] at this
-  have sij : (Pi.single i (1 : ℝ) : Fin n → ℝ) j = 0 := by simp [hij.symm]
-  simp only [Pi.add_apply, Pi.smul_apply, sij, Pi.single_eq_same, smul_eq_mul, mul_zero, mul_one,
-    zero_add] at this
-  have hk' : (0 : ℝ) < k := by exact_mod_cast hk
-  linarith
 end GT.Cox
 
 namespace GT.C07R2
